@@ -605,6 +605,10 @@ class BeltStore(Store):
 
         # Add the item if space is available
         if len(self.items)+len(self.ready_items) < self.capacity:
+            # the travel bookkeeping must exist as soon as the item is on the belt: _do_reserve_put reads it,
+            # possibly in this very instant, before the move process below has run its first step
+            item[0].total_interruption_time = 0
+            item[0].interruption_start_time = None
             self.items.append(item)
             self._update_time_averaged_level()
             #self.env.process(self.move_to_ready_items(item))
